@@ -19,7 +19,7 @@ for K in 1 2 3; do
 import json,sys
 ID,K,tests=sys.argv[1:4]
 json.dump({"property":"(area-based seed: see notes.md for the property it breaks)","area":ID,
- "author":"independent sub-agent (round 7) given the property texts, one source area, the one-line summaries of all earlier seeded changes and a scratch worktree",
+ "author":"independent sub-agent (round 7+) given the property texts, one source area, the one-line summaries of all earlier seeded changes and a scratch worktree",
  "confirmed":{"unchanged_worktree_demo_exit":0,"patched_demo_exit":"non-zero","patched_unit_tests":tests},
  "detected_by":None}, open(f"/verif/seeded/{ID}_{K}/meta.json","w"), indent=1)
 PY
